@@ -376,6 +376,8 @@ func (r *rawNetServer) OpenReverseTunnel(s tunnelpb.TunnelService_OpenReverseTun
 	return r.onReverse(s)
 }
 
+var errStartBlocked = fmt.Errorf("Start still blocked after 1s of virtual time")
+
 // ---- raw server ----
 
 type s2cStream interface {
@@ -422,6 +424,14 @@ type RawServer struct {
 	RecvDone bool
 	RecvErr  error
 	ready    chan struct{}
+	// StartCh receives the result of the real client's Start call (forward only).
+	StartCh chan StartResult
+}
+
+// StartResult is what NewChannel(...).Start returned.
+type StartResult struct {
+	Ch  grpctunnel.TunnelChannel
+	Err error
 }
 
 // Send sends one frame to the real tunnel client.
@@ -574,24 +584,20 @@ func (w *World) OpenRawServer(o RawServerOpts, programs map[string]*RawProgram) 
 		}}
 		tunnelpb.RegisterTunnelServiceServer(w.Conn, raw)
 		w.Stub = tunnelpb.NewTunnelServiceClient(w.Conn)
-		type res struct {
-			ch  grpctunnel.TunnelChannel
-			err error
-		}
-		rch := make(chan res, 1)
+		rs.StartCh = make(chan StartResult, 1)
 		go func() {
 			ch, err := grpctunnel.NewChannel(w.Stub, copts...).Start(w.RootCtx)
-			rch <- res{ch, err}
+			rs.StartCh <- StartResult{ch, err}
 		}()
 		w.Advance(time.Second)
 		select {
-		case r := <-rch:
-			if r.err == nil {
-				w.Ch, w.TCh, w.Outer = r.ch, r.ch, r.ch
+		case r := <-rs.StartCh:
+			if r.Err == nil {
+				w.Ch, w.TCh, w.Outer = r.Ch, r.Ch, r.Ch
 			}
-			return rs, r.ch, r.err
+			return rs, r.Ch, r.Err
 		default:
-			return rs, nil, fmt.Errorf("Start still blocked after 1s of virtual time")
+			return rs, nil, errStartBlocked
 		}
 	case "reverse":
 		// real handler is the tunnel client; the raw peer is a network client
